@@ -16,6 +16,9 @@ Clauses(e) ==
       <<"variance-formula", e.raised \/ Small(e.rho_dev, Tol)>>,
       \* each k_i minimises the forward+backward error energy of its stage (errors rebuilt from k_1..k_{i-1})
       <<"each-stage-minimises-fb-error", e.raised \/ Small(e.min_dev, Tol)>>,
+      \* ... relative to the variance itself (strongly predictable records: the variance is 1e-10 of the power and less):
+      \* ratio of the relative deviation to what the cancellation in 1-|k_i|^2 allows (1e-14 * sum 1/(1-|k_i|^2)), 1e-3 units
+      <<"variance-formula-relative", e.raised \/ ~Has(e, "rho_rel_ratio") \/ e.rho_rel_ratio <= 1000>>,
       <<"variance-non-increasing", e.raised \/ e.nonincreasing>>,
       <<"nested", e.raised \/ Small(e.nest_dev, Tol)>>,
       <<"lengths", e.raised \/ e.lens>>,
